@@ -459,6 +459,8 @@ def _(c):
         out = c.real("out")
         pts = list(orb.iter(stop=target, step=timedelta(seconds=out)))
         k = len(pts) - 1
+        # (dates beyond an off-grid stop are C08's listed finding; here only: the iteration is not cut short)
+        c.ensure("iteration_reaches_stop", (pts[-1].date - d0).total_seconds() >= math.floor(dt / out + 1e-9) * out - 1e-5)
         via = np.asarray(orb.propagate(pts[k].date), dtype=float)
         c.ensure("iter_vs_propagate", bool(np.linalg.norm(np.asarray(pts[k][:3], dtype=float) - via[:3]) <= 2e-2))
         mid = pts[len(pts) // 2]
